@@ -163,6 +163,10 @@ def bytes_jobs(tier_):
         for k in range(30 if q else 300):
             J.bytes_job(corpus.cfg(P), blen=3000, rec=False, deep=0, warm=1 + k % 3)
             J.seed_job(corpus.cfg(P, 60, 300, muts=corpus.MUTS, rate=0.5), rec=False, deep=0, warm=1 + k % 3)
+        # unsafe configurations with a mutator registered twice (both instances rewrite the same emission)
+        for k in range(250 if q else 2500):
+            J.seed_job(corpus.cfg(P, 60, 300, muts=corpus.DUP_LISTS[2] if k % 2 == 0 else corpus.DUP_LISTS[k % 4] + ["typeconfusion"],
+                                  rate=1.0 if k % 4 < 2 else 0.5, unsafe=True), rec=False, deep=0)
         for kind in ("ff", "zero", "empty", "ramp"):
             J.bytes_job(corpus.cfg(P, ext=True, buf=True), kind=kind, blen=4000, rec=False, deep=0)
             J.bytes_job(corpus.cfg(P, 60, 300, muts=corpus.MUTS, rate=1.0, unsafe=True, ext=True, buf=True), kind=kind, blen=4000, rec=False, deep=0)
